@@ -264,7 +264,22 @@ fn guard_loop() {
             None => stable_since = None,
             Some(desc) => {
                 let since = *stable_since.get_or_insert_with(std::time::Instant::now);
-                if since.elapsed() >= std::time::Duration::from_millis(4000) && log_len() == len && GUARD_WORKERS.load(Ordering::SeqCst) as usize == n {
+                // corroboration from the kernel: a worker that was spawned but has not been
+                // scheduled yet (no hook event, so unknown to `derive`) is runnable, not asleep.
+                // On a machine loaded far beyond its cores such a thread was seen to wait longer
+                // than the stability interval; without this test the state "producer polling,
+                // some workers at the barrier, the others not started yet" looked stuck.
+                let asleep = |_: ()| matches!(os_threads_all_sleeping(), Some((true, _)));
+                if since.elapsed() >= std::time::Duration::from_millis(4000)
+                    && log_len() == len
+                    && GUARD_WORKERS.load(Ordering::SeqCst) as usize == n
+                    && asleep(())
+                    && {
+                        std::thread::sleep(std::time::Duration::from_millis(250));
+                        asleep(())
+                    }
+                    && log_len() == len
+                {
                     let desc = match worker_panic() {
                         Some(p) => format!("{} | a pipeline thread panicked: {}", desc, p),
                         None => desc,
